@@ -106,7 +106,8 @@ fn serve_connect(mut io: ServerIo, srv: Value) -> (ServerIo, bool) {
     }
     // client info, licence
     if io.recv_tpkt().is_err() { io.drain(300); return (io, false); }
-    let lic = if gs(&srv, "licence", "valid") == "new" { rp::licence_new_license() } else { rp::licence_valid_client() };
+    let pflags = srv.get("licflags").and_then(|x| x.as_u64()).unwrap_or(3) as u8;
+    let lic = if gs(&srv, "licence", "valid") == "new" { rp::licence_new_license_f(pflags) } else { rp::licence_valid_client_f(pflags) };
     if io.send(&lic, "Licence").is_err() { return (io, false); }
     (io, true)
 }
